@@ -1,6 +1,6 @@
 (* C08 - Service tasks are stopped at teardown before anything they may depend on. *)
 From Coq Require Import List Bool Arith.
-From Asphalt Require Import Conc.Service Conc.ServiceProofs.
+From Asphalt Require Import Conc.Service Conc.ServiceProofs Conc.ServiceFuel.
 Import ListNotations.
 
 (* For every set of service tasks (any teardown action and behaviour), every program of
@@ -48,3 +48,10 @@ Theorem C08_cancel_is_observed : forall SV s sid,
   (exists k, ts s sid = TRun k) \/ ts s sid = TWait -> snd (cancel_task SV s sid) = [CancelSeen sid].
 Proof. exact cancel_reaches_running_task. Qed.
 Print Assumptions C08_cancel_is_observed.
+
+(* the model's run-to-quiescence loop never runs out of fuel: every state a run reaches (any
+   services, program and gate sequence) is settled -- no silent transition is left *)
+Theorem C08_fuel_suffices : forall SV prog gs,
+  let '(s, tr) := run_gates SV prog (init SV prog) [] gs in settled SV s.
+Proof. exact fuel_suffices. Qed.
+Print Assumptions C08_fuel_suffices.
